@@ -36,7 +36,24 @@ func TimeValueWithin(d time.Duration) Value {
 }
 
 func toTime(x pref.Message) time.Time {
-	return x.Interface().(*timestamppb.Timestamp).AsTime()
+	if t, ok := x.Interface().(*timestamppb.Timestamp); ok {
+		return t.AsTime()
+	}
+	// not the generated Go type (a dynamicpb message, say): read the two fields through reflection
+	seconds, nanos := secondsAndNanos(x)
+	return (&timestamppb.Timestamp{Seconds: seconds, Nanos: nanos}).AsTime()
+}
+
+// secondsAndNanos reads fields 1 (seconds) and 2 (nanos) of a google.protobuf.Timestamp or Duration of any Go type.
+func secondsAndNanos(x pref.Message) (seconds int64, nanos int32) {
+	fields := x.Descriptor().Fields()
+	if fd := fields.ByNumber(1); fd != nil && fd.Kind() == pref.Int64Kind && !fd.IsList() {
+		seconds = x.Get(fd).Int()
+	}
+	if fd := fields.ByNumber(2); fd != nil && fd.Kind() == pref.Int32Kind && !fd.IsList() {
+		nanos = int32(x.Get(fd).Int())
+	}
+	return seconds, nanos
 }
 
 // DurationValueWithin considers two durationpb.Duration to be equal if their durations are within d of each other.
@@ -92,5 +109,10 @@ func cmpDuration(fd pref.FieldDescriptor, x, y pref.Value) (xd, yd time.Duration
 }
 
 func toDuration(x pref.Message) time.Duration {
-	return x.Interface().(*durationpb.Duration).AsDuration()
+	if d, ok := x.Interface().(*durationpb.Duration); ok {
+		return d.AsDuration()
+	}
+	// not the generated Go type (a dynamicpb message, say): read the two fields through reflection
+	seconds, nanos := secondsAndNanos(x)
+	return (&durationpb.Duration{Seconds: seconds, Nanos: nanos}).AsDuration()
 }
